@@ -44,7 +44,10 @@ MANIFEST = {
             "once the wrapper is released or deallocated and never before, never after ffi.gc(x, None); ffi.release is "
             "idempotent; a live unreleased from_buffer view keeps its source alive and un-resizable and releasing "
             "unlocks; a live struct pointer (or a held p[0]) keeps the struct object from being finalised; live handles "
-            "have distinct addresses and from_handle returns the object given to new_handle.  The model is tied to "
+            "have distinct addresses and from_handle returns the object given to new_handle.  Destructor / free calls "
+            "are activations with an extent (release marks the wrapper first, then calls; ret ends the call): the "
+            "histories contain arbitrary operations issued from inside callbacks to any depth, so exactly-once and "
+            "idempotence also cover re-entrant and concurrent release of the wrapper being finalised.  The model is tied to "
             "_cffi_backend by replaying random histories (cycles, explicit collections, both FFI front ends) whose "
             "observed deallocations and destructor calls the model must accept and predict.",
     "note": "Trusted: Lean kernel; CPython's reference counting / cycle collector / weakref semantics and bytearray's "
@@ -60,7 +63,11 @@ RULE = ("histories of 15..60 operations drawn by weight from: new Python contain
         "ffi.gc(g, None), ffi.release, with-statement, double release, p[0], store into a container (cycles through "
         "destructor objects, handle targets and buffer sources), clear a container, drop a reference, new_handle, "
         "from_handle (through the handle, a void* and a char* cast), from_buffer, bytearray resize, gc.collect(), plus "
-        "the calls the implementation rejects (release of a handle / a struct, gc(non-wrapper, None), ...); a history "
+        "the calls the implementation rejects (release of a handle / a struct, gc(non-wrapper, None), ...); destructors "
+        "and free callbacks carry scripts run inside the call (release / with / double release of their own wrapper, "
+        "release of other wrappers, drops, gc.collect(), random operations, depth <= 3); 14 fixed histories in every run "
+        "(re-entrant release from destructor, free callback, collector finaliser; two threads with forced ordering: A "
+        "blocked inside the destructor while B releases the same wrapper); a history "
         "is non-trivial when a destructor ran at a deallocation and a reference cycle was collected; distinct = "
         "distinct operation sequences")
 ASSUMPTIONS = ["CPython 3.12 reference counting, cycle collector and weakref clearing order",
@@ -132,6 +139,11 @@ class Rec(object):
         self.addr = None
         self.target = None
         self.early = False
+        # mirror of the references the object holds (to linearise what the cycle collector does)
+        self.fields = []
+        self.dtor_mid = None
+        self.orig_mid = None
+        self.fin = False
 
 
 class InfraTimeout(Exception):
@@ -168,12 +180,14 @@ class Hist(object):
         self.cyclic_collected = False
         self.dtor_at_dealloc = False
         self.broken = None
+        self.early_sink = None
         self.rel_stack = []        # releases in progress: {"target": wrapper id, "fired": bool, "idx": line index}
         self.depth = 0             # destructor calls in progress
         self.finalize_depth = 0    # ... of which started by the collector's tp_finalize
         self.gc_phase = None       # None | 1 (collector clears weakrefs of the garbage) | 2 (finalizers and later)
         self.gc_garbage = set()
         self.gc_finalized = set()
+        self.gc_silent_done = True
         self.nested_ops = 0
         self.timeout = None
         self.thread_done = False
@@ -184,7 +198,14 @@ class Hist(object):
         self.counts[k] = self.counts.get(k, 0) + n
 
     def fail(self, detail):
+        if any(f["detail"] == detail for f in self.fails):
+            return
         self.fails.append({"at": len(self.lines), "detail": detail})
+        if self.early_sink is not None:
+            # tell the parent at once: a double call usually corrupts reference counts and the interpreter
+            # may not survive until the end of the history
+            self.early_sink({"early": self.hseed, "flavor": self.flavor, "detail": detail,
+                             "at": len(self.lines), "lines": [l for l, _, _ in self.lines]})
 
     def new_rec(self, kind, obj):
         mid = self.next_id
@@ -209,6 +230,41 @@ class Hist(object):
         self.lines.append([line, expect, what or line.split(" ")[0]])
         return len(self.lines) - 1
 
+    def edges(self, r):
+        if r.kind in ("box", "dtor", "buf"):
+            return r.fields
+        if r.kind == "gcp":
+            if r.fin:
+                return []
+            e = [r.orig_mid] if r.orig_mid is not None else []
+            if r.dtor_mid is not None and r.noned_at is None:
+                e.append(r.dtor_mid)
+            return e
+        if r.kind == "handle":
+            return [r.target]
+        if r.kind == "structptr":
+            return [r.sid]
+        if r.kind == "frombuf" and not r.released:
+            return [r.src]
+        return []
+
+    def garbage_parents(self, dead):
+        """During a collection the weak references of all the garbage are cleared first; when a member is really
+        deallocated afterwards cannot be seen.  If something it referred to is reported dead, it is dead too."""
+        if self.gc_phase is None:
+            return list(dead)
+        S = set(dead)
+        pend = [m for m in self.deaths if m in self.gc_garbage and m not in S]
+        changed = True
+        while changed:
+            changed = False
+            for y in pend:
+                if y not in S and any(e in S for e in self.edges(self.recs[y])):
+                    S.add(y)
+                    changed = True
+        self.deaths[:] = [m for m in self.deaths if m not in S]
+        return sorted(S)
+
     def dying_parents(self, dead):
         """Handles and struct pointers drop their reference *before* their own weak references are cleared
         (cdataowninggc_dealloc, cdataowning_dealloc): when the object they referred to is reported dead they are
@@ -227,23 +283,29 @@ class Hist(object):
                     changed = True
         return sorted(dead)
 
-    def flush_deaths(self):
-        """report what the implementation deallocated since the last report (no destructor call involved)"""
-        if not self.deaths:
-            return
+    def take_deaths(self):
+        """the deallocations to report now"""
         if self.finalize_depth > 0:
             # inside a finaliser run by the collector: the garbage is not deallocated yet (only its weak
-            # references are cleared); it is reported when gc.collect() is over
+            # references are cleared); it is reported when it must be, at the latest when gc.collect() is over
             dead = [m for m in self.deaths if m not in self.gc_garbage]
             self.deaths[:] = [m for m in self.deaths if m in self.gc_garbage]
         else:
             dead = list(self.deaths)
             del self.deaths[:]
         if not dead:
-            return
+            return []
         if len(set(dead)) != len(dead):
             self.fail("an object was reported dead twice")
-        self.emit("collect " + " ".join(str(i) for i in self.dying_parents(dead)), "ok", "collect")
+        dead = self.garbage_parents(self.dying_parents(dead))
+        self.gc_garbage.difference_update(dead)
+        return dead
+
+    def flush_deaths(self):
+        """report what the implementation deallocated since the last report (no destructor call involved)"""
+        dead = self.take_deaths()
+        if dead:
+            self.emit("collect " + " ".join(str(i) for i in dead), "ok", "collect")
 
     def on_call(self, dtor, arg):
         if dtor.wid is not None:
@@ -255,6 +317,10 @@ class Hist(object):
                 return
         r = self.recs[wid]
         r.calls += 1
+        r.fin = True
+        if r.calls > 1:
+            self.fail("%s of wrapper %d called %d times" % ("free function" if r.is_alloc else "destructor",
+                                                            wid, r.calls))
         if r.orig_id is not None and id(arg) != r.orig_id:
             self.fail("destructor of wrapper %d called with an object that is not the original cdata" % wid)
         # what started this call?
@@ -268,14 +334,14 @@ class Hist(object):
             self.gc_finalized.add(wid)               # tp_finalize run by the cycle collector
             self.gc_phase = 2
             self.finalize_depth += 1                 # (the garbage itself is not reported dead yet)
+            self.silent_finalizes()
             self.flush_deaths()
             self.emit("finalize %d %s" % (wid, " ".join(str(i) for i in sorted(self.gc_garbage))), "ok %d" % wid,
                       "finalize")
             kind = "finalize"
             fin = True
         else:
-            dead = self.dying_parents(self.deaths)   # deallocation of the wrapper (it is the last that died)
-            del self.deaths[:]
+            dead = self.take_deaths()                # deallocation of the wrapper (it is the last that died)
             self.emit("collect " + " ".join(str(i) for i in dead), "ok %d" % wid, "collect")
             self.dtor_at_dealloc = True
             kind = "dealloc"
@@ -425,6 +491,8 @@ class Hist(object):
         rw.is_alloc = True
         rw.had_dtor = free_obj is not None
         rw.orig_id = id(raw)
+        rw.orig_mid = rraw.mid
+        rw.dtor_mid = free_mid
         self.raw_by_id[id(raw)] = rw.mid
         del raw
         self.hold(held, obj)
@@ -450,6 +518,8 @@ class Hist(object):
         r = self.new_rec("gcp", g)
         r.had_dtor = True
         r.orig_id = id(p[2])
+        r.orig_mid = p[1]
+        r.dtor_mid = d[1]
         d[2].wid = r.mid
         self.hold(r, g)
         self.emit("gc %d %d" % (p[1], d[1]), "ok %d" % r.mid)
@@ -493,6 +563,7 @@ class Hist(object):
             self.rel_stack.append(ent)
             if t is not None:
                 t.released = True
+                t.fin = True
             if r.kind == "frombuf":
                 r.released = True
             try:
@@ -532,6 +603,7 @@ class Hist(object):
 
     def do_store(self, c, x):
         c[2].fields.append(x[1])
+        self.recs[c[1]].fields.append(x[0])
         if isinstance(c[2], Dtor) and c[2].wid == x[0]:
             c[2].own = len(c[2].fields) - 1
         self.emit("store %d %d" % (c[1], x[0]), "ok")
@@ -544,6 +616,7 @@ class Hist(object):
         self.emit("clear %d" % c[1], "ok")
         if isinstance(c[2], Dtor):
             c[2].own = None
+        self.recs[c[1]].fields = []
         del c[2].fields[:]
         self.flush_deaths()
         return True
@@ -692,6 +765,23 @@ class Hist(object):
         return None      # no model line
 
     # ---- one step
+    def silent_finalizes(self):
+        """tp_finalize of the garbage wrappers whose destructor slot is empty: no callback, but the reference to
+        the original cdata is given up there.  Their place among the other finalisers cannot be observed;
+        they are reported before the first one that can."""
+        if self.gc_silent_done:
+            return
+        self.gc_silent_done = True
+        S = " ".join(str(i) for i in sorted(self.gc_garbage))
+        for mid in sorted(self.gc_garbage):
+            r = self.recs[mid]
+            if mid in self.gc_finalized:
+                continue
+            if r.kind == "gcp" and not (r.had_dtor and r.calls == 0 and r.noned_at is None and not r.released):
+                self.gc_finalized.add(mid)
+                r.fin = True
+                self.emit("finalize %d %s" % (mid, S), "ok", "finalize")
+
     def do_collect(self):
         if self.gc_phase is not None:
             return                 # gc.collect() while a collection is in progress does nothing
@@ -699,6 +789,7 @@ class Hist(object):
         self.gc_phase = 1
         self.gc_garbage = set()
         self.gc_finalized = set()
+        self.gc_silent_done = False
         try:
             gc.collect()
         finally:
@@ -927,12 +1018,17 @@ class Hist(object):
                 "broken": self.broken}
 
 
-def run_history(hseed, flavor):
-    return Hist(hseed, flavor).run()
+def run_history(hseed, flavor, sink=None):
+    h = Hist(hseed, flavor)
+    h.early_sink = sink
+    return h.run()
 
 
 # --------------------------------------------------------------------------
 # isolation: histories run in a forked child
+
+EARLY = []          # failures reported by the last child before the end of their history
+
 
 def in_child(jobs, timeout=600):
     """Run [(hseed, flavor)] in a forked child; returns (results, crash) where crash is None or a
@@ -946,8 +1042,11 @@ def in_child(jobs, timeout=600):
         try:
             os.close(r)
             with os.fdopen(w, "w") as out:
+                def sink(obj):
+                    out.write(json.dumps(obj) + "\n")
+                    out.flush()
                 for hseed, flavor in jobs:
-                    res = run_history(hseed, flavor)
+                    res = run_history(hseed, flavor, sink)
                     out.write(json.dumps(res) + "\n")
                     out.flush()
         except BaseException:
@@ -958,10 +1057,15 @@ def in_child(jobs, timeout=600):
             os._exit(code)
     os.close(w)
     results = []
+    del EARLY[:]
     with os.fdopen(r) as inp:
         for line in inp:
             if line.endswith("\n"):
-                results.append(json.loads(line))
+                obj = json.loads(line)
+                if "early" in obj:
+                    EARLY.append(obj)
+                else:
+                    results.append(obj)
     _, status = os.waitpid(pid, 0)
     if os.WIFSIGNALED(status):
         return results, "interpreter killed by signal %d" % os.WTERMSIG(status)
@@ -997,8 +1101,14 @@ def run_all(ctx, jobs, model=True):
         # locate the history that kills the interpreter: the one after the last finished
         job = jobs[len(results)]
         _, crash1 = in_child([job])
-        ctx.fail({"hseed": job[0], "flavor": job[1], "crash": True},
-                 "%s while running this history (memory no longer valid / fatal error)" % (crash1 or crash))
+        early = [e for e in EARLY if e["early"] == job[0]]
+        if early:
+            for e in early[:3]:
+                ctx.fail({"hseed": job[0], "flavor": job[1], "at": e["at"], "trace": e["lines"], "crash": True},
+                         "%s (afterwards: %s)" % (e["detail"], crash1 or crash))
+        else:
+            ctx.fail({"hseed": job[0], "flavor": job[1], "crash": True},
+                     "%s while running this history (memory no longer valid / fatal error)" % (crash1 or crash))
         rest = jobs[len(results) + 1:]
         if rest:
             more, _ = in_child(rest)
